@@ -6,7 +6,7 @@ import itertools
 from .. import core
 from ..core import Prop, Violation
 from ._coord import (CoordMixin, Impl, gen_multi_kill, gen_cycled_ring, gen_ring_again, gen_long_gaps,
-                     gen_boost_inversion)
+                     gen_boost_inversion, pint, gen_prio)
 
 FINDING = "C15-edges-dropped-on-progress"
 EXCUSABLE = {"exact_missed_deadlock", "exact_phantom_deadlock", "reported_members_really_wait"}   # never: acquire_result_matches_lock, victim / handling clauses
@@ -149,7 +149,7 @@ class C15(CoordMixin, Prop):
                 o = rng.randint(1, nops)
                 c = rng.random()
                 if o not in live and c < 0.8:
-                    lines.append(f"start {o} {rng.randint(0, 3)}")
+                    lines.append(f"start {o} {gen_prio(rng, 0, 3)}")
                     live.add(o)
                     if rng.random() < 0.15:
                         lines.append(f"adv {rng.choice([1, 3, 6])}")
@@ -168,6 +168,7 @@ class C15(CoordMixin, Prop):
                     lines.append("deadlock")
                 else:
                     lines.append(rng.choice(["boost", "maint", f"exempt {o} 1", "adv 3", f"advance {o}", f"advance {o}",
+                                             f"prio {o} {rng.randint(0, 4)}",
                                              f"flag {o} {rng.choice('rev')} {rng.choice('011')}"]))
             lines.append("deadlock")
             lines.append("watchdog")
@@ -223,7 +224,9 @@ class C15(CoordMixin, Prop):
                 break                                   # id reuse: outside the quantifier
             if k == "start" and len(t) == 3 and t[1] in st["active"]:
                 started[t[1]] = info.get("now", 0)
-                given[t[1]] = int(t[2])
+                given[t[1]] = pint(t[2])
+            if k == "prio" and len(t) == 3 and t[1] in st["active"]:
+                given[t[1]] = pint(t[2])            # re-assigned from outside: the harness's own record follows
             if k in ("exec", "cell", "shutdown"):
                 trig_at = idx if trig_at is None else trig_at       # outside the fragment covered by c15_exact_partial
             # ---- what an acquisition / release really did, read from the locks themselves (ResourceLock.owner), not from
